@@ -8,8 +8,8 @@ ACTIONS = ["Init", "Permute", "Recase", "DecTtl", "ExpandWildcard", "Compress", 
 
 META = {
     "category": "model_checking",
-    "text": "Rrsig.tla states the RFC 4034 3.1.8.1 signed-data layout declaratively and transcribes the signer (sign_rrset / sign_sorted_rrset_in) and the validator-side reconstruction (RrsigExt::signed_data); it also states the key side: which algorithm numbers the backend signs and verifies with (a signature is a signature of its key's algorithm: a key or RRSIG relabelled as a sibling algorithm - 8/10, 13/14 - is another key), DNSKEY flag bits, key sizes, signature lengths and the RFC 3110 RSA public key layout. TLC checks over owners (apex, wildcard, mixed case, interior '*' labels, labels that merely begin with '*': *a.ex, **.a.ex), 19 RRsets of 16 types, one key per signing algorithm of the ring backend (RSASHA256, RSASHA512, ECDSA P-256 / P-384, Ed25519; obtained directly or through the BIND private-key format), resolver transforms (permute, recase, TTL decrement, wildcard expansion, compression, representation conversions: message round trip + flatten_into, OctetsFrom, the typed Dnskey / Ds / Nsec / Rrsig / ProtoRrsig parse + conversions, owner names as relative names chained to an origin) and 16 kinds of alteration (now also the RRSIG Algorithm field and the DNSKEY Algorithm field) that transforms preserve and alterations change the signed octets. SignerInput.tla / MC_SignerInput.tla state where the signer's RRsets come from: SortedRecords.tla (X07's ordered-set machine) is instantiated, a zone's records (case variants of one owner, the same record under another TTL or spelling, unknown types, a wildcard, apex SOA / NS) reach the collection by insert() one at a time in every arrival order, From<Vec> / collect() / extend() of the rest in every order and every mix of these, and the collection is edited on the way (remove_first / remove_all by owner and type or by owner alone, the records removed arriving again by insert() or extend() in every order; update_data() of a stored record to data that sorts first, last or equals a sibling's); TLC checks that the collection is canonical after every operation, that this is the precondition (CanonicalRrset) under which the entry points that trust the stored order (TrustingOctets: sign_sorted_rrset_in on rrsets(), sign_sorted_zone_records on owner_rrs(), sign_zone with AlreadyPresent / Nsec / Nsec3, in place and into another collection) and those that sort themselves (sign_rrset on rrsets() and on a caller's slice in arrival order) hand SignedData to sign_raw, and that the signature verifies over the RRset presented in every order; two mutants of the specification (insert with an append fast path; update_data that leaves the record in place) must violate the law. Every behaviour is replayed op by op (collection after every call) and through all 10 entry points, and RrsigExt::signed_data of each RRSIG over the caller's own records in reverse arrival order must rebuild the model's octets (recording key: octets per RRset; real Ed25519 key: every RRSIG, also those over generated NSEC / NSEC3 records, verifies over its RRset as stored, reversed and rotated). Key sizes: the RFC 3110 layout is checked at its limits on both sides (exponents of 1 .. 513 octets incl. the first three-octet length 256, moduli of 64 .. 513 octets; decode o encode = id exactly on 1..512 octets, refusal outside; ValidatorAccepts = what PublicKey::from_dnskey / verify_signed_data take, for every RSA algorithm number, incl. prohibited leading zero octets) and a 4096 bit RSA key (the RFC limit) signs and verifies like the others (SignerAccepts => ValidatorAccepts). Every explored state is replayed: the buffer captured by a recording SignRaw key (sign_rrset, sign_sorted_rrset_in on From<Vec> and on collect()ed SortedRecords) and the buffer rebuilt by signed_data must equal TLC's octets, ProtoRrsig::compose_canonical must equal the model's RRSIG prefix, a real ring key of the model's algorithm (RSA keys imported from the repository's BIND key files with parse_from_bind, the others generated; exported and re-imported with format_as_bind / parse_from_bind on the 'bind' route) must produce a signature of the model's length that verifies exactly when the model says so, the RFC 4035 B.6 RSA/SHA-1 vector must verify over the octets the model builds and fail for the key with any other Algorithm number, key_tag(), the SigningKey / Dnskey flag predicates, DnskeyExt::key_size, rsa_encode / rsa_exponent_modulus, the set of verifiable / signable algorithm numbers (all 256) and DnskeyExt::digest must equal TLC's arithmetic / the evaluated digest term. MC_Signer.tla models sign_sorted_rrset_in as a machine over the caller-owned scratch buffer (backend failure, retry / next RRset with the same buffer, non-empty buffer on entry, refusal to sign an RRSIG RRset; every behaviour of 3 / 4 calls replayed with a failing recording key and a failing real key). Recorded runs also build random zones of 20-150 records by random routes (zone-file-like arrival owner by owner with the records of an RRset in any order, random order, batches; RRsets or whole owners removed and arriving again, update_data) and sign them through a random entry point (event signzone: the collection as handed out is canonical, one sign_raw buffer per RRset = SignedData, real-key RRSIGs verify in any order), and sign with the 4096 bit RSASHA256 / RSASHA512 keys. Recorded runs on random RRsets of 17 types (shared scratch buffer, injected backend failures, owners with '*'-prefixed labels) and signatures by real keys of all five algorithms (TLC recomputes the key tag of the real key octets, signature length, key size; verification under the key, another key, the sibling algorithm) are validated by TLC.",
-    "note": "Trusted: TLC, ring (signatures, SHA-1/256/384), the transcription of RFC 4034/4035/6840/3110 in Rrsig.tla. Canonical RDATA uses a local per-type table (which embedded names are lower-cased) for the types exercised, not the full Rdata.tla. Signature validity times are not checked by verify_signed_data and not here. Duplicate RRs in a received RRset are outside the model (RFC 4034 6.3 allows rejecting them). RSA keys cannot be generated by ring: the two 2048-bit RSA keys of the repository's test-data/dnssec-keys and one 4096-bit key of the harness (harness/data/Krsa4096.+008, openssl genrsa 4096; also relabelled as RSASHA512) are used; the quick tier puts the 4096-bit key through every single transform and alteration (not stacked ones) on 3 RRsets x 3 owners. The backend's RSA minimum sizes (verify 1024, sign 2048 bits) are constants of the model. Signer-input zones have no cuts, nothing out of zone and one TTL per RRset. Quick tier: one edit per behaviour, in zones of 3 records (SOA + one RRset of A / TXT / wildcard TXT / unknown type / apex NS) once all records have arrived one at a time (the collection has no state but its content); thorough tier: at any point of any route. SortedRecords as a collection is X07's subject (SortedRecords.tla). Quick tier: only the Ed25519 key meets every RRset and owner, the other four algorithms meet 3 RRsets x 3 owners; alterations are not stacked on the 'typed' / 'chain' representations (thorough tier: all). (D_key_size_panic is fixed.)",
+    "text": "Rrsig.tla states the RFC 4034 3.1.8.1 signed-data layout declaratively and transcribes the signer (sign_rrset / sign_sorted_rrset_in) and the validator-side reconstruction (RrsigExt::signed_data); it also states the key side: which algorithm numbers the backend signs and verifies with (a signature is a signature of its key's algorithm: a key or RRSIG relabelled as a sibling algorithm - 8/10, 13/14 - is another key), DNSKEY flag bits, key sizes, signature lengths and the RFC 3110 RSA public key layout. TLC checks over owners (apex, wildcard, mixed case, interior '*' labels, labels that merely begin with '*': *a.ex, **.a.ex), 19 RRsets of 16 types, one key per signing algorithm of the ring backend (RSASHA256, RSASHA512, ECDSA P-256 / P-384, Ed25519; obtained directly or through the BIND private-key format), resolver transforms (permute, recase, TTL decrement, wildcard expansion, compression, representation conversions: message round trip + flatten_into, OctetsFrom, the typed Dnskey / Ds / Nsec / Rrsig / ProtoRrsig parse + conversions, owner names as relative names chained to an origin) and 16 kinds of alteration (now also the RRSIG Algorithm field and the DNSKEY Algorithm field) that transforms preserve and alterations change the signed octets. SignerInput.tla / MC_SignerInput.tla state where the signer's RRsets come from: SortedRecords.tla (X07's ordered-set machine) is instantiated, a zone's records (case variants of one owner, the same record under another TTL or spelling, unknown types, a wildcard, apex SOA / NS) reach the collection by insert() one at a time in every arrival order, From<Vec> / collect() / extend() of the rest in every order and every mix of these, and the collection is edited on the way (remove_first / remove_all by owner and type or by owner alone, the records removed arriving again by insert() or extend() in every order; update_data() of a stored record to data that sorts first, last or equals a sibling's); TLC checks that the collection is canonical after every operation, that this is the precondition (CanonicalRrset) under which the entry points that trust the stored order (TrustingOctets: sign_sorted_rrset_in on rrsets(), sign_sorted_zone_records on owner_rrs(), sign_zone with AlreadyPresent / Nsec / Nsec3, in place and into another collection) and those that sort themselves (sign_rrset on rrsets() and on a caller's slice in arrival order) hand SignedData to sign_raw, and that the signature verifies over the RRset presented in every order; two mutants of the specification (insert with an append fast path; update_data that leaves the record in place) must violate the law. Every behaviour is replayed op by op (collection after every call) and through all 10 entry points, and RrsigExt::signed_data of each RRSIG over the caller's own records in reverse arrival order must rebuild the model's octets (recording key: octets per RRset; real Ed25519 key: every RRSIG, also those over generated NSEC / NSEC3 records, verifies over its RRset as stored, reversed and rotated). Key sizes: the RFC 3110 layout is checked at its limits on both sides (exponents of 1 .. 513 octets incl. the first three-octet length 256, moduli of 64 .. 513 octets; decode o encode = id exactly on 1..512 octets, refusal outside; ValidatorAccepts = what PublicKey::from_dnskey / verify_signed_data take, for every RSA algorithm number, incl. prohibited leading zero octets) and a 4096 bit RSA key (the RFC limit) signs and verifies like the others (SignerAccepts => ValidatorAccepts). Every explored state is replayed: the buffer captured by a recording SignRaw key (sign_rrset, sign_sorted_rrset_in on From<Vec> and on collect()ed SortedRecords) and the buffer rebuilt by signed_data must equal TLC's octets, ProtoRrsig::compose_canonical must equal the model's RRSIG prefix, a real ring key of the model's algorithm (RSA keys imported from the repository's BIND key files with parse_from_bind, the others generated; exported and re-imported with format_as_bind / parse_from_bind on the 'bind' route) must produce a signature of the model's length that verifies exactly when the model says so, the RFC 4035 B.6 RSA/SHA-1 vector must verify over the octets the model builds and fail for the key with any other Algorithm number, key_tag(), the SigningKey / Dnskey flag predicates, DnskeyExt::key_size, rsa_encode / rsa_exponent_modulus, the set of verifiable / signable algorithm numbers (all 256) and DnskeyExt::digest must equal TLC's arithmetic / the evaluated digest term. MC_Signer.tla models sign_sorted_rrset_in as a machine over the caller-owned scratch buffer (backend failure, retry / next RRset with the same buffer, non-empty buffer on entry, refusal to sign an RRSIG RRset; every behaviour of 3 / 4 calls replayed with a failing recording key and a failing real key). Recorded runs also build random zones of 20-150 records by random routes (zone-file-like arrival owner by owner with the records of an RRset in any order, random order, batches; RRsets or whole owners removed and arriving again, update_data) and sign them through a random entry point (event signzone: the collection as handed out is canonical, one sign_raw buffer per RRset = SignedData, real-key RRSIGs verify in any order), and sign with the 4096 bit RSASHA256 / RSASHA512 keys. SignedOrder.tla / MC_SignedOrder.tla bind the ORDER of the RRs inside the signed data (RFC 4034 6.3: canonical RDATA as octet strings, so length octets sort before content) to the layout table of Rdata.tla: a typed value becomes Rrsig.tla's field sequence, the two statements of the canonical form must agree (TablesAgree: LowerNameTypes against the table's `lower` column), and for every field of every zone record type the library has structured data for (35 types + 3 unknown) an RRset of 2-5 records is derived that differs only in that field, the field taking adversarial values of its kind (character strings / length-prefixed blobs / CAA tags b, aa, a; names b, aa, a.c, B.a; TXT string lists; type bitmaps; SVCB parameter lists; IPSECKEY gateways; opaque rests; big-endian integers), plus two-record RRsets whose two neighbouring fields disagree; TLC checks that signer and validator transcriptions equal the RFC term in every arrival order, that the order is CanonRdCmp of the table, and (MenuIsAdversarial / MenuIsComplete) that every variable-length field of every type has an RRset on which the field-wise natural comparison (content before length, names in name order, blobs by length, sets by members) is NOT the octet order. Each case is executed through sign_rrset (caller's slice), sign_sorted_rrset_in (From<Vec>, collect()), sign_sorted_zone_records on a zone that received the records by insert() in arrival order, the order in which SortedRecords stores them, RrsigExt::signed_data, a real Ed25519 signature made by the harness over the RFC construction's octets (must verify through signed_data + verify_signed_data over the reversed RRset) and the library's own signature checked against the RFC construction's octets. Recorded runs on random RRsets of 18 types (HINFO / NAPTR / CAA records that differ first in character strings of different lengths; shared scratch buffer, injected backend failures, owners with '*'-prefixed labels) and signatures by real keys of all five algorithms (TLC recomputes the key tag of the real key octets, signature length, key size; verification under the key, another key, the sibling algorithm) are validated by TLC.",
+    "note": "Trusted: TLC, ring (signatures, SHA-1/256/384), the transcription of RFC 4034/4035/6840/3110 in Rrsig.tla. Canonical RDATA in Rrsig.tla uses a local per-type table (which embedded names are lower-cased); SignedOrder.tla checks it against the full Rdata.tla table (TablesAgree). The signed-order RRsets vary one field (or two neighbouring fields) of a fixed base value per type, one Ed25519 key, one owner (x.Yz under apex Yz; the NS RRset is a delegation there and the zone signer must not sign it). Signature validity times are not checked by verify_signed_data and not here. Duplicate RRs in a received RRset are outside the model (RFC 4034 6.3 allows rejecting them). RSA keys cannot be generated by ring: the two 2048-bit RSA keys of the repository's test-data/dnssec-keys and one 4096-bit key of the harness (harness/data/Krsa4096.+008, openssl genrsa 4096; also relabelled as RSASHA512) are used; the quick tier puts the 4096-bit key through every single transform and alteration (not stacked ones) on 3 RRsets x 3 owners. The backend's RSA minimum sizes (verify 1024, sign 2048 bits) are constants of the model. Signer-input zones have no cuts, nothing out of zone and one TTL per RRset. Quick tier: one edit per behaviour, in zones of 3 records (SOA + one RRset of A / TXT / wildcard TXT / unknown type / apex NS) once all records have arrived one at a time (the collection has no state but its content); thorough tier: at any point of any route. SortedRecords as a collection is X07's subject (SortedRecords.tla). Quick tier: only the Ed25519 key meets every RRset and owner, the other four algorithms meet 3 RRsets x 3 owners; alterations are not stacked on the 'typed' / 'chain' representations (thorough tier: all). (D_key_size_panic is fixed.)",
     "technique": "TLA+ spec (Rrsig.tla) + TLC exhaustive; spec->impl case replay with symbolic-crypto term evaluation; impl->spec trace validation",
     "design_ref": "DESIGN.md §4 C12",
 }
@@ -67,6 +67,28 @@ def run(ctx):
                   label="signer-input-mutant-update", expect_violation="HandedIsSignedData")
     ctx.require_ok(mu2, "MC_SignerInput with update_data in place must violate HandedIsSignedData")
     ctx.replay_cases("replay_dnssec", icases, label="signer-input")
+    # the ORDER of the RRs in the signed data is the order of their canonical
+    # RDATA octets: RRsets derived from the layout table of Rdata.tla (every
+    # variable-length field of every zone record type takes short-but-greater /
+    # long-but-smaller / prefix values) through signer, zone signer, collection,
+    # validator and real signatures over the RFC construction's octets
+    ocases = os.path.join(ctx.work, "order-cases.ndjson")
+    so = ctx.tlc("MC_SignedOrder", "MC_SignedOrder_thorough" if thorough else "MC_SignedOrder", workers=4,
+                 label="mc-signed-order", cases_to=ocases)
+    ctx.require_ok(so, "MC_SignedOrder")
+    ctx.require_actions(so, ["Init", "Reverse", "Rotate"])
+    ctx.exhaustive_flags.append(True)
+    if so.ncases < 300:
+        raise vlib.ToolError("signed-order model produced too few cases")
+    ohead = os.path.join(ctx.work, "order-head.ndjson")
+    with open(ocases) as f, open(ohead, "w") as g:
+        for i, line in enumerate(f):
+            if i >= 10:
+                break
+            g.write(line)
+    rc, out, err, _ = ctx.run_bin("replay_dnssec", ["--selftest-perturb"], stdin_path=ohead)
+    ctx.selftest("perturbed signed-order expectation is reported by replay_dnssec", "FAIL " in out)
+    ctx.replay_cases("replay_dnssec", ocases, label="signed-order")
     # I->S
     n_traces = 4 if thorough else 2
     for i in range(n_traces):
@@ -105,7 +127,7 @@ def run(ctx):
             open(bad, "w").write("\n".join(lines) + "\n")
             ok3, _, _ = ctx.validate_trace("Trace_Rrsig", "Trace_Rrsig", bad, label="trace-selftest-order")
             ctx.selftest("trace whose collection hands its records out of order is rejected by Trace_Rrsig", not ok3)
-    ctx.assume("canonical RDATA: local table of lower-cased-name types (RFC 4034 6.2 + RFC 6840 5.1) for A NS CNAME SOA PTR MX TXT AAAA SRV DNAME MINFO NAPTR NSEC DNSKEY DS CAA and unknown types")
+    ctx.assume("canonical RDATA: local table of lower-cased-name types (RFC 4034 6.2 + RFC 6840 5.1) for A NS CNAME SOA PTR MX TXT AAAA SRV DNAME MINFO NAPTR NSEC DNSKEY DS CAA HINFO and unknown types; MC_SignedOrder checks it against the full Rdata.tla table for all zone types")
     ctx.assume("verification verdicts use freshly generated ring Ed25519 / ECDSA-P256 / ECDSA-P384 keys (key material differs per run, verdicts do not) and the RSASHA256 / RSASHA512 keys Ktest.+008+60616, Ktest.+010+46731 of the repository's test-data/dnssec-keys")
     ctx.assume("received RRsets contain no duplicate RRs")
     ctx.assume("signer-input zones: class IN, no zone cuts, nothing out of zone, one TTL per RRset (which RRsets sign_zone signs and mixed TTLs are X07's subject); the RSA 4096 bit key is harness/data/Krsa4096.+008 (openssl genrsa 4096), used as RSASHA256 and RSASHA512")
